@@ -6,10 +6,26 @@
   on machine integers as long as no index reaches `usize::MAX`).  Proofs and helper lemmas
   live in `ClarabelProofs/Lemmas/Chordal{Dsu,PostOrder,TriIndex,Split,Reorder,MergePC}.lean`.
 
-  Not carried by a theorem (checked by the correspondence + validity oracle on every run):
-  the Pothen–Sun supernode construction, the merge loops as a whole and the clique-graph
-  strategy (`pipeline`: elimination tree ⇒ clique tree with running intersection +
-  coverage), the AMD ordering and the symbolic factorisation (inputs of the model).
+  Round 3 adds (sections at the end of the file):
+  * the readers of the symbolic factor and the Pothen–Sun supernodes on a filled pattern
+    (`LPat.Filled`, decided by the executable `LPat.filledB` which the driver evaluates on every
+    generated pattern): partition, chains of the elimination tree, separator = higher adjacency
+    of the representative minus the supernode, clique + coverage, the supernodal parent
+    structure, and `SuperNodeTree::new` as a whole (`Lemmas/Chordal{Etree,PothenSun,
+    SupernodeTree,SnodeParent}.lean`);
+  * the whole parent–child merge loop incl. `post_process_merge`, with separator = clique ∩
+    parent clique and running intersection as consequences of the invariant `CTInv`
+    (`Lemmas/ChordalMergePCLoop.lean`);
+  * the pipelines `SparsityPattern::new(·, ·, "none" | "parent_child")` end to end, concluded in
+    the terms of the harness oracle: `ValidCliqueTree`, decided by the executable
+    `validCliqueTreeB` (`Lemmas/Chordal{Valid,Bridge}.lean`);
+  * for the clique-graph strategy: `kruskal` marks a spanning tree and
+    `determine_parent_cliques`/`assign_children` orient it (`Lemmas/ChordalKruskal.lean`).
+
+  Not carried by a theorem (checked by the correspondence + validity oracle on every run): the
+  construction and the merge loop of the reduced clique graph (clique-graph strategy), the AMD
+  ordering and the symbolic factorisation (inputs of the model; the hypotheses of the pipeline
+  theorems are evaluated on them at run time, channel `hyp.analysis`); see the note at the end.
 -/
 import ClarabelProofs.Lemmas.ChordalDsu
 import ClarabelProofs.Lemmas.ChordalPostOrder
@@ -17,6 +33,12 @@ import ClarabelProofs.Lemmas.ChordalTriIndex
 import ClarabelProofs.Lemmas.ChordalSplit
 import ClarabelProofs.Lemmas.ChordalReorder
 import ClarabelProofs.Lemmas.ChordalMergePC
+import ClarabelProofs.Lemmas.ChordalSupernodeTree
+import ClarabelProofs.Lemmas.ChordalMergePCLoop
+import ClarabelProofs.Lemmas.ChordalSnodeParent
+import ClarabelProofs.Lemmas.ChordalKruskal
+import ClarabelProofs.Lemmas.ChordalValid
+import ClarabelProofs.Lemmas.ChordalBridge
 
 namespace Clarabel.C17
 open Clarabel Clarabel.Chordal
@@ -261,5 +283,459 @@ example : ∃ t', PCStrategy.mergeTwoCliques exTree (2, 1) = .ok t' ∧ PCInv t'
     ((exTree_live 2).2 (by decide)) ((exTree_live 1).2 (by decide)) (by decide) (by decide)
     (by decide)
   exact ⟨t', h1, h2.inv, h2.dead, h2.cover_ch⟩
+
+/-! ## the symbolic factor, the elimination tree and the Pothen–Sun supernodes
+(`supernode_tree.rs`: `parent_from_L`, `higher_degree`, `pothen_sun`, `find_supernodes`,
+`find_separators`, front half of `SuperNodeTree::new`) -/
+
+/-- a filled pattern on 5 vertices (columns `{1,2}`, `{2,4}`, `{4}`, `{4}`, `∅`) whose supernodes
+are `{0}`, `{1,2,4}`, `{3}` -/
+def exL : LPat := { n := 5, colptr := #[0, 2, 4, 5, 6, 6], rowval := #[1, 2, 2, 4, 4, 4] }
+
+/-- non-vacuity of every theorem below with the hypothesis `L.Filled` (`Filled` is decidable:
+`LPat.filledB_iff`) -/
+theorem exL_filled : exL.Filled := (LPat.filledB_iff _).1 (by decide)
+
+/-- [S] the executable test run by the driver on every generated pattern decides the
+hypothesis `LPat.Filled` of the theorems of this section. -/
+theorem filled_test (L : LPat) : L.filledB = true ↔ L.Filled := L.filledB_iff
+
+/-- [S] `parent_from_L` on a filled pattern: no panic; `parent[v]` is the first (= smallest) row
+of column `v`, every vertex but the last has a larger parent, the last vertex is the only root
+(so the elimination "tree" is a tree and every vertex reaches the root). -/
+theorem parent_from_L {L : LPat} (h : L.Filled) :
+    ∃ parent, parentFromL L = .ok parent ∧ EtreeParent parent L.n ∧
+      (∀ v, v + 1 < L.n → parent.getD v 0 = L.par v) ∧
+      parent.toList.findIdx? (· == noParent) = some (L.n - 1) ∧
+      (∀ v, v < L.n → Reaches parent (L.n - 1) v) := by
+  obtain ⟨parent, h1, h2, _, h4⟩ := parent_from_L_spec h
+  exact ⟨parent, h1, h2, h4, h2.findIdx_root, h2.reaches_root⟩
+
+/-- [S] `higher_degree` on a filled pattern: no panic (no `usize` underflow), `degree[v]` is the
+number of entries of column `v` (`0` for the last vertex). -/
+theorem higher_degree {L : LPat} (h : L.Filled) :
+    ∃ deg, higherDegree L = .ok deg ∧ deg.size = L.n ∧
+      (∀ v, v + 1 < L.n → deg.getD v 0 = (L.col v).length) ∧ deg.getD (L.n - 1) 0 = 0 :=
+  higher_degree_spec h
+
+/-- [S] `find_separators`: on non-empty supernodes of in-range vertices, no panic, and
+`separator(sn)` = higher adjacency of the representative `min sn` minus the supernode, without
+repetition. -/
+theorem find_separators {L : LPat} (h : L.Filled) (snode : Array VSet)
+    (hsn : ∀ sn ∈ snode.toList, sn.toList ≠ [] ∧ ∀ v ∈ sn.toList, v < L.n) :
+    findSeparators L snode = .ok (snode.map (sepOf L)) ∧
+    ∀ sn : VSet, (sepOf L sn).toList.Nodup ∧
+      ∀ x, x ∈ (sepOf L sn).toList ↔ x ∈ L.col (minOf sn) ∧ x ∉ sn.toList :=
+  ⟨find_separators_spec h snode hsn, fun sn => ⟨nodup_sepOf L sn, mem_sepOf L sn⟩⟩
+
+/-- [S] `pothen_sun` on an elimination tree (`parent[v] > v`, single root `n-1`), positive
+degrees of the non-roots and a post-order without repetition that lists children before
+parents: no panic (all indices in range, `degree[v] - 1` does not underflow), and the returned
+`snode_index` satisfies `PSCore`: a vertex `x` with `snode_index[x] = r ≥ 0` was claimed by a
+child `c` with `degree[c] = degree[x] + 1` belonging to the same supernode, and `r` is a
+representative (`snode_index[r] < 0`). -/
+theorem pothen_sun {parent post degree : Array Nat} {n : Nat} (hpar : EtreeParent parent n)
+    (hdsz : degree.size = n) (hdpos : ∀ v, v + 1 < n → 0 < degree.getD v 0)
+    (hnd : post.toList.Nodup) (hlt : ∀ v ∈ post.toList, v < n)
+    (hpw : post.toList.Pairwise (fun a b => parent.getD b 0 ≠ a)) :
+    ∃ sp si, pothenSun parent post degree = .ok (sp, si) ∧ si.size = n ∧
+      PSCore parent degree n post.toList.reverse si :=
+  pothen_sun_spec hpar hdsz hdpos hnd hlt hpw
+
+/-- [S] `find_supernodes` under the same hypotheses: no panic; the supernodes are non-empty,
+repetition-free, PARTITION the vertices `0..n`, and every member of a supernode other than its
+representative has a child inside the supernode whose degree is one larger (`Supernodes`). -/
+theorem find_supernodes {parent post degree : Array Nat} {n : Nat} (hpar : EtreeParent parent n)
+    (hdsz : degree.size = n) (hdpos : ∀ v, v + 1 < n → 0 < degree.getD v 0)
+    (hnd : post.toList.Nodup) (hlt : ∀ v ∈ post.toList, v < n)
+    (hpw : post.toList.Pairwise (fun a b => parent.getD b 0 ≠ a)) :
+    ∃ snode sp, findSupernodes parent post degree = .ok (snode, sp) ∧
+      Supernodes parent degree n snode :=
+  find_supernodes_spec hpar hdsz hdpos hnd hlt hpw
+
+/-- [S] a Pothen–Sun supernode of a filled pattern is a CHAIN of the elimination tree starting
+at its smallest vertex: the representative is the minimum, reaches every member by parent
+pointers, and every member's column is contained in the representative's column. -/
+theorem supernode_chain {L : LPat} (h : L.Filled) {sn : List Nat} {rep : Nat}
+    (hs : SnodeOf L sn rep) {parent : Array Nat} (hsz : parent.size = L.n)
+    (hp : ∀ v, v + 1 < L.n → parent.getD v 0 = L.par v) :
+    (∀ x ∈ sn, rep ≤ x) ∧ (∀ x ∈ sn, Reaches parent x rep) ∧
+    (∀ x ∈ sn, ∀ r ∈ L.col x, r ∈ L.col rep) :=
+  ⟨hs.rep_le h, hs.chain h hsz hp, hs.col_sub h⟩
+
+/-- [S] in a filled pattern `{v} ∪ col v` is a clique: two rows `x < y` of one column are
+adjacent. -/
+theorem filled_col_clique {L : LPat} (h : L.Filled) {v : Nat} (hv : v < L.n) {x y : Nat}
+    (hx : x ∈ L.col v) (hy : y ∈ L.col v) (hxy : x < y) : y ∈ L.col x :=
+  h.col_clique v hv x hx y hy hxy
+
+/-- [S] **front half of `SuperNodeTree::new`** on a filled pattern:
+`parent_from_L ⇒ children_from_parent ⇒ post_order ⇒ higher_degree ⇒ find_supernodes ⇒
+find_separators` run without panic (`post_order` within its fuel), `post` is a permutation of
+the vertices, and the supernodes/separators satisfy `SnCover`: the supernodes partition the
+vertices, each is a Pothen–Sun supernode (chain) with representative its minimum, and
+`separators = snode.map (col(min sn) \ sn)`. -/
+theorem supernode_front {L : LPat} (h : L.Filled) :
+    ∃ parent children post children' degree snode sparent,
+      parentFromL L = .ok parent ∧ childrenFromParent parent = .ok children ∧
+      postOrder parent children parent.size = .ok (post, children') ∧
+      higherDegree L = .ok degree ∧ findSupernodes parent post degree = .ok (snode, sparent) ∧
+      findSeparators L snode = .ok (snode.map (sepOf L)) ∧
+      EtreeParent parent L.n ∧ post.toList.Perm (List.range L.n) ∧
+      SnCover L snode (snode.map (sepOf L)) :=
+  sntree_front h
+
+/-- [S] **coverage by the initial cliques**: whatever tree `SuperNodeTree::new` returns on a
+filled pattern, its supernodes partition the vertices, `n_cliques = |snode|`, `post` is a
+permutation, and for every clique `i`: (1) `separators[i]` = higher adjacency of the
+representative minus the supernode, repetition-free; (2) `snode[i] ∪ separators[i]` contains the
+whole column (every structural non-zero) of each vertex of `snode[i]`; (3) it is a clique of the
+filled graph; and (4) every structural non-zero `(r, x)` of `L` lies in the clique whose
+supernode contains `x`. -/
+theorem supernode_cover {L : LPat} (h : L.Filled) {t : SuperNodeTree}
+    (ht : SuperNodeTree.new L = .ok t) :
+    (t.snode.toList.flatMap (fun sn => sn.toList)).Perm (List.range L.n) ∧
+    t.nCliques = t.snode.size ∧ t.post.toList.Perm (List.range L.n) ∧
+    (∀ i, i < t.snode.size →
+      ((t.separators.getD i #[]).toList.Nodup ∧
+        ∀ x, x ∈ (t.separators.getD i #[]).toList ↔
+          x ∈ L.col (minOf (t.snode.getD i #[])) ∧ x ∉ (t.snode.getD i #[]).toList) ∧
+      (∀ x ∈ (t.snode.getD i #[]).toList, ∀ r ∈ L.col x,
+        r ∈ (t.snode.getD i #[]).toList ∨ r ∈ (t.separators.getD i #[]).toList) ∧
+      (∀ x y, (x ∈ (t.snode.getD i #[]).toList ∨ x ∈ (t.separators.getD i #[]).toList) →
+        (y ∈ (t.snode.getD i #[]).toList ∨ y ∈ (t.separators.getD i #[]).toList) → x < y →
+        y ∈ L.col x)) ∧
+    (∀ x, x < L.n → ∀ r ∈ L.col x, ∃ i, i < t.snode.size ∧ x ∈ (t.snode.getD i #[]).toList ∧
+      (r ∈ (t.snode.getD i #[]).toList ∨ r ∈ (t.separators.getD i #[]).toList)) := by
+  obtain ⟨hc, h2, h3, _⟩ := sntree_new_cover h ht
+  exact ⟨hc.partition, h2, h3,
+    fun i hi => ⟨hc.sep_spec i hi, hc.cover h i hi, hc.clique h i hi⟩, hc.cover_all h⟩
+
+/-- non-vacuity: the front half runs on the filled pattern `exL` and yields supernodes and
+separators satisfying `SnCover` -/
+example : ∃ snode sparent parent post degree,
+    findSupernodes parent post degree = .ok (snode, sparent) ∧
+    findSeparators exL snode = .ok (snode.map (sepOf exL)) ∧
+    SnCover exL snode (snode.map (sepOf exL)) := by
+  obtain ⟨parent, _, post, _, degree, snode, sparent, _, _, _, _, h5, h6, _, _, h9⟩ :=
+    supernode_front exL_filled
+  exact ⟨snode, sparent, parent, post, degree, h5, h6, h9⟩
+
+/-! ## the parent–child merge loop (`merge/mod.rs::merge_cliques`, `merge/parent_child.rs`) -/
+
+/-- [S] one merge preserves the clique-tree invariant `CTInv` (= `PCInv` + repetition-free and
+pairwise disjoint supernodes, repetition-free separators, a rank function growing towards the
+root, roots without separator, retired cliques empty), with the same rank function. -/
+theorem parent_child_merge_ct {t : SuperNodeTree} {ord : Nat → Nat} {p ch : Nat}
+    (h : CTInv t ord) (hm : MergeHyp t p ch) : CTInv (mergedTree t p ch) ord :=
+  h.merge hm
+
+/-- [S] under `CTInv`: SEPARATOR = CLIQUE ∩ PARENT CLIQUE for every live non-root clique. -/
+theorem separator_eq_inter {t : SuperNodeTree} {ord : Nat → Nat} (h : CTInv t ord) {c : Nat}
+    (hl : Live t c) (hnp : t.snodeParent.getD c 0 ≠ noParent) (v : Nat) :
+    v ∈ (t.separators.getD c #[]).toList ↔
+      v ∈ cliqueList t c ∧ v ∈ cliqueList t (t.snodeParent.getD c 0) :=
+  h.sep_eq_inter hl hnp v
+
+/-- [S] under `CTInv`: RUNNING INTERSECTION in the form tested by the harness oracle — every
+vertex of a live clique has exactly one "top" clique (a live clique containing it whose parent
+clique does not) — and in the classical form: two live cliques containing `v` climb to the
+same clique `x` (the one with `v` in its supernode) and `v` lies in every clique on both
+chains. -/
+theorem running_intersection {t : SuperNodeTree} {ord : Nat → Nat} (h : CTInv t ord) :
+    RunInt t ∧
+    ∀ v a b, Live t a → v ∈ cliqueList t a → Live t b → v ∈ cliqueList t b →
+      ∃ x, Live t x ∧ v ∈ (t.snode.getD x #[]).toList ∧ Anc t a x ∧ Anc t b x ∧
+        (∀ c, Anc t a c → Anc t c x → v ∈ cliqueList t c) ∧
+        (∀ c, Anc t b c → Anc t c x → v ∈ cliqueList t c) :=
+  ⟨h.runInt, fun _ _ _ h1 h2 h3 h4 => h.running_intersection h1 h2 h3 h4⟩
+
+/-- [S] **the whole loop** of `merge_cliques` (parent–child strategy): from any state satisfying
+the loop invariant, with fuel at least `clique_index + 2`, the loop returns (no panic, fuel not
+exhausted, `fill_in` and `n_cliques -= 1` do not underflow) a tree that satisfies `CTInv` with
+the same rank function and is related to the input by `PCLoopRel` (bookkeeping untouched,
+cliques only retired, COVERAGE: every old live clique inside a new live clique, no vertex
+invented, the clique counter drops by the number of retired cliques). -/
+theorem parent_child_loop {ord : Nat → Nat} (fuel : Nat) (s : PCStrategy) (t : SuperNodeTree)
+    (hinv : PCLoopInv t ord s) (hstop : s.stop = false) (hfuel : s.cliqueIndex + 2 ≤ fuel) :
+    ∃ t', PCStrategy.loop fuel s t = .ok t' ∧ CTInv t' ord ∧ PCLoopRel t t' :=
+  PCStrategy.loop_spec fuel s t hinv hstop hfuel
+
+/-- [S] **`merge_cliques` (parent–child) as a whole**, from the state `PCInit` in which it is
+entered (a clique tree with ≥ 2 cliques, all live, `snode_post` a post-order with the only root
+last): the loop with the fuel the model hands out terminates, `post_process_merge`
+(`post_order` on the parent array with `INACTIVE_NODE` markers) terminates; the result satisfies
+`CTInv` (hence separator = clique ∩ parent and running intersection), covers every input
+clique, `n_cliques` = number of live cliques = length of the new `snode_post`, which lists
+exactly the live cliques, children before parents, the (unchanged, unique) root last. -/
+theorem parent_child_merge_cliques {t : SuperNodeTree} {ord : Nat → Nat} (h : PCInit t ord) :
+    ∃ t' post ch',
+      PCStrategy.mergeCliques t = .ok { t' with snodePost := post, snodeChildren := ch' } ∧
+      CTInv { t' with snodePost := post, snodeChildren := ch' } ord ∧ PCLoopRel t t' ∧
+      t'.nCliques = liveCount t' ∧
+      post.toList.Nodup ∧ post.size = t'.nCliques ∧ (∀ c, c ∈ post.toList ↔ Live t' c) ∧
+      (∀ c, Live t' c → t'.snodeParent.getD c 0 ≠ noParent →
+        List.Sublist [c, t'.snodeParent.getD c 0] post.toList) ∧
+      (∀ c, Live t' c → (t'.snodeParent.getD c 0 = noParent ↔
+        c = t.snodePost.getD (t.snode.size - 1) 0)) ∧
+      post.toList.getLast? = some (t.snodePost.getD (t.snode.size - 1) 0) := by
+  obtain ⟨t', post, ch', _, h2, _, h4, h5, h6, h7, h8, h9, h10, _, h12, h13⟩ :=
+    PCStrategy.merge_cliques_pc_spec h
+  exact ⟨t', post, ch', h2, h6, h4, h5, h7, h8, h9, h10, h12, h13⟩
+
+/-- non-vacuity: the chain `0 → 1 → 2` with cliques `{1,2|3}`, `{3|4}`, `{4,5}` satisfies
+`PCInit`, and the loop merges it into the single clique `{4,5,3,1,2}` -/
+example : PCInit exTree (fun c => c) ∧
+    PCStrategy.loop 4 { stop := false, cliqueIndex := 1 } exTree = .ok exTreeFinal :=
+  ⟨exTree_init, exTree_loop⟩
+
+/-! ## the analysis as a whole for the strategies `none` and `parent_child`
+(`SuperNodeTree::new` incl. its back half, `SparsityPattern::new`) -/
+
+/-- [S] the supernodal elimination tree returned by `find_supernodes` (`pothen_sun`'s
+`snode_parent`): the supernode of the last vertex is the only root; every other supernode has a
+largest vertex `w` and its parent is the (different) supernode containing `parent[w]`
+(`SnParent`); together with `Supernodes` (partition into Pothen–Sun supernodes). -/
+theorem find_supernodes_parent {parent post degree : Array Nat} {n : Nat}
+    (hpar : EtreeParent parent n) (hdsz : degree.size = n)
+    (hdpos : ∀ v, v + 1 < n → 0 < degree.getD v 0)
+    (hnd : post.toList.Nodup) (hlt : ∀ v ∈ post.toList, v < n)
+    (hpw : post.toList.Pairwise (fun a b => parent.getD b 0 ≠ a))
+    (hall : ∀ v, v < n → v ∈ post.toList) (hlast : post.toList.getLast? = some (n - 1)) :
+    ∃ snode sparent, findSupernodes parent post degree = .ok (snode, sparent) ∧
+      Supernodes parent degree n snode ∧ SnParent parent n snode sparent :=
+  find_supernodes_parent_spec hpar hdsz hdpos hnd hlt hpw hall hlast
+
+/-- [S] **`SuperNodeTree::new` on a filled pattern** terminates without panic (incl.
+`children_from_parent` / `post_order` on the supernodal tree) and returns a valid clique tree
+(`SnTreeOk`): supernodes partition the vertices and are chains with
+`separator = col(representative) \ supernode` (`SnCover`, hence coverage), the clique-tree
+invariant `CTInv` (hence separator = clique ∩ parent clique and running intersection), all
+cliques live, `snode_post` a permutation of the clique indices with children before parents and
+the unique root (the clique of the last vertex) last; with ≥ 2 cliques it is a valid entry
+state `PCInit` of the parent–child merge. -/
+theorem supernode_tree_new {L : LPat} (h : L.Filled) :
+    ∃ t, SuperNodeTree.new L = .ok t ∧ SnTreeOk L t ∧
+      (2 ≤ t.snode.size → PCInit t (fun c => maxOf (t.snode.getD c #[]))) := by
+  obtain ⟨t, h1, h2⟩ := sntree_new_ok h
+  exact ⟨t, h1, h2, h2.pcinit⟩
+
+/-- [S] **pipeline, strategy `none`**: for a filled pattern `L` and an `ordering` that is a
+permutation of `0..n`, `SparsityPattern::new(L, ordering, "none")` returns (no panic) `(tf, ord')`
+where `tf` is the clique tree `t0 = SuperNodeTree::new(L)` relabelled by a permutation `q`
+(`AnalysisOk`: `CTInv tf` — separator = clique ∩ parent clique, running intersection —,
+`snode_post` lists the live cliques once, `nblk[i] = |clique(snode_post[i])|`), `ord'` is a
+permutation with `ord'[q[x]] = ordering[x]`, and every structural non-zero `(r, x)` of `L` is
+covered by a live clique of `tf`. -/
+theorem analysis_none {L : LPat} (h : L.Filled) (ordering : Array Nat)
+    (ho : ordering.toList.Perm (List.range L.n)) :
+    ∃ (t0 tf : SuperNodeTree) (ord' q : Array Nat),
+      SuperNodeTree.new L = .ok t0 ∧ SnTreeOk L t0 ∧
+      sparsityPatternNew L ordering "none" = .ok (tf, ord') ∧
+      AnalysisOk L.n t0 q tf (fun c => maxOf (t0.snode.getD c #[])) ∧
+      ord'.toList.Perm (List.range L.n) ∧
+      (∀ x, x < L.n → ord'.getD (q.getD x 0) 0 = ordering.getD x 0) ∧
+      (∀ x, x < L.n → ∀ r ∈ L.col x, ∃ c, Live tf c ∧
+        q.getD x 0 ∈ cliqueList tf c ∧ q.getD r 0 ∈ cliqueList tf c) :=
+  analysis_none_final h ordering ho
+
+/-- [S] **pipeline, strategy `parent_child`**: the same for
+`SparsityPattern::new(L, ordering, "parent_child")`, where `tf` is the MERGED tree `t1` (the
+output of the whole merge loop + `post_process_merge`, `PreReorder`) relabelled by `q`. -/
+theorem analysis_parent_child {L : LPat} (h : L.Filled) (ordering : Array Nat)
+    (ho : ordering.toList.Perm (List.range L.n)) :
+    ∃ (t0 t1 tf : SuperNodeTree) (ord' q : Array Nat),
+      SuperNodeTree.new L = .ok t0 ∧ SnTreeOk L t0 ∧
+      PreReorder L.n t1 (fun c => maxOf (t0.snode.getD c #[])) ∧
+      sparsityPatternNew L ordering "parent_child" = .ok (tf, ord') ∧
+      AnalysisOk L.n t1 q tf (fun c => maxOf (t0.snode.getD c #[])) ∧
+      ord'.toList.Perm (List.range L.n) ∧
+      (∀ x, x < L.n → ord'.getD (q.getD x 0) 0 = ordering.getD x 0) ∧
+      (∀ x, x < L.n → ∀ r ∈ L.col x, ∃ c, Live tf c ∧
+        q.getD x 0 ∈ cliqueList tf c ∧ q.getD r 0 ∈ cliqueList tf c) :=
+  analysis_pc_final h ordering ho
+
+/-- [S] what `AnalysisOk` gives about the returned tree: separator = clique ∩ parent clique for
+every live non-root clique, running intersection (oracle form), `snode_post` duplicate-free
+listing exactly the live cliques, `nblk[i] = |clique(snode_post[i])|`. -/
+theorem analysis_ok_consequences {n : Nat} {t1 tf : SuperNodeTree} {q : Array Nat}
+    {ord : Nat → Nat} (h : AnalysisOk n t1 q tf ord) :
+    (∀ c, Live tf c → tf.snodeParent.getD c 0 ≠ noParent → ∀ v,
+      (v ∈ (tf.separators.getD c #[]).toList ↔
+        v ∈ cliqueList tf c ∧ v ∈ cliqueList tf (tf.snodeParent.getD c 0))) ∧
+    RunInt tf ∧ tf.snodePost.toList.Nodup ∧ (∀ c, c ∈ tf.snodePost.toList ↔ Live tf c) ∧
+    ∃ nb, tf.nblk = some nb ∧ nb.size = tf.nCliques ∧
+      ∀ i, i < tf.nCliques → nb.getD i 0 = (cliqueList tf (tf.snodePost.getD i 0)).length :=
+  ⟨fun _ hl hnp v => h.ct.sep_eq_inter hl hnp v, h.ct.runInt, h.post_nodup, h.post_live, h.nblk⟩
+
+/-- non-vacuity: both pipelines run on the filled pattern `exL` with the identity ordering -/
+example : (∃ tf ord', sparsityPatternNew exL #[0, 1, 2, 3, 4] "none" = .ok (tf, ord')) ∧
+    (∃ tf ord', sparsityPatternNew exL #[0, 1, 2, 3, 4] "parent_child" = .ok (tf, ord')) := by
+  obtain ⟨_, tf, ord', _, _, _, h1, _⟩ :=
+    analysis_none exL_filled #[0, 1, 2, 3, 4] (List.Perm.refl _)
+  obtain ⟨_, _, tf', ord'', _, _, _, _, h2, _⟩ :=
+    analysis_parent_child exL_filled #[0, 1, 2, 3, 4] (List.Perm.refl _)
+  exact ⟨⟨tf, ord', h1⟩, ⟨tf', ord'', h2⟩⟩
+
+/-! ## the validity predicate of the harness oracle, machine-checked
+(`ClarabelModel/Chordal/Valid.lean`: `validCliqueTreeB`, evaluated by the driver on the model's
+output of every analysis case — response field `valid=` — and against `check_clique_tree` on
+corrupted trees — channel `tree.valid`) -/
+
+/-- [S] the executable checker decides the Prop-level validity statement `ValidCliqueTree`
+(ordering a permutation, consistent sizes, and either the single-clique case or: `snode_post`
+duplicate-free, dead cliques empty, supernodes = consecutive ranges partitioning `0..n`, clique
+lists repetition-free and in range, exactly one root and it is last, parents live and later in
+the post-order, separator = clique ∩ parent clique, root separator empty, children = inverse of
+parents, running intersection, `nblk`, coverage of the pattern). -/
+theorem valid_clique_tree_checker (n : Nat) (edges : List (Nat × Nat)) (t : SuperNodeTree)
+    (ordering : Array Nat) :
+    validCliqueTreeB n edges t ordering = true ↔ ValidCliqueTree n edges t ordering :=
+  validCliqueTreeB_iff n edges t ordering
+
+/-- [S] **C17 for the strategy `none`, in the oracle's own terms**: for a filled pattern `L`, an
+`ordering` that is a permutation, and pattern entries `edges` (original coordinates) that are
+entries of `L` at the positions of their endpoints in `ordering`,
+`SparsityPattern::new(L, ordering, "none")` returns without panic a tree and an ordering that
+satisfy `ValidCliqueTree` — every clause the harness oracle `check_clique_tree` tests. -/
+theorem analysis_none_valid {L : LPat} (h : L.Filled) (ordering : Array Nat)
+    (ho : ordering.toList.Perm (List.range L.n)) (edges : List (Nat × Nat))
+    (hedges : ∀ e ∈ edges, ∃ a b, a < L.n ∧ b < L.n ∧ ordering[a]? = some e.1 ∧
+        ordering[b]? = some e.2 ∧ (b ∈ L.col a ∨ a ∈ L.col b)) :
+    ∃ tf ord', sparsityPatternNew L ordering "none" = .ok (tf, ord') ∧
+      ValidCliqueTree L.n edges tf ord' ∧ validCliqueTreeB L.n edges tf ord' = true :=
+  Clarabel.Chordal.analysis_none_valid h ordering ho edges hedges
+
+/-- [S] **C17 for the strategy `parent_child`, in the oracle's own terms** (same statement; the
+tree is the one after the whole merge loop, `post_process_merge`, the relabelling and
+`calculate_block_dimensions`; it may consist of a single clique). -/
+theorem analysis_parent_child_valid {L : LPat} (h : L.Filled) (ordering : Array Nat)
+    (ho : ordering.toList.Perm (List.range L.n)) (edges : List (Nat × Nat))
+    (hedges : ∀ e ∈ edges, ∃ a b, a < L.n ∧ b < L.n ∧ ordering[a]? = some e.1 ∧
+        ordering[b]? = some e.2 ∧ (b ∈ L.col a ∨ a ∈ L.col b)) :
+    ∃ tf ord', sparsityPatternNew L ordering "parent_child" = .ok (tf, ord') ∧
+      ValidCliqueTree L.n edges tf ord' ∧ validCliqueTreeB L.n edges tf ord' = true :=
+  Clarabel.Chordal.analysis_pc_valid h ordering ho edges hedges
+
+/-- [S] the same, with the hypotheses in the executable form that the driver evaluates on every
+generated case (channel `hyp.analysis`: `filled=1 perm=1 edges=1`): if the three tests pass on
+`(L, ordering, edges)` then for both strategies the model's analysis succeeds and its output
+passes the machine-checked validity checker. -/
+theorem analysis_valid_of_tests (L : LPat) (ordering : Array Nat) (edges : List (Nat × Nat))
+    (h1 : L.filledB = true) (h2 : clOrderingPerm L.n ordering = true)
+    (h3 : L.edgesInB ordering edges = true) :
+    (∃ tf ord', sparsityPatternNew L ordering "none" = .ok (tf, ord') ∧
+      validCliqueTreeB L.n edges tf ord' = true) ∧
+    (∃ tf ord', sparsityPatternNew L ordering "parent_child" = .ok (tf, ord') ∧
+      validCliqueTreeB L.n edges tf ord' = true) := by
+  have hf := (LPat.filledB_iff L).1 h1
+  have ho := (clOrderingPerm_iff L.n ordering).1 h2
+  have he := LPat.edgesInB_sound L ordering edges h3
+  obtain ⟨tf, ord', a, _, b⟩ := analysis_none_valid hf ordering ho edges he
+  obtain ⟨tf', ord'', a', _, b'⟩ := analysis_parent_child_valid hf ordering ho edges he
+  exact ⟨⟨tf, ord', a, b⟩, ⟨tf', ord'', a', b'⟩⟩
+
+/-- non-vacuity: the three tests pass on `exL` with the identity ordering and its six pattern
+entries -/
+example : exL.filledB = true ∧ clOrderingPerm exL.n #[0, 1, 2, 3, 4] = true ∧
+    exL.edgesInB #[0, 1, 2, 3, 4] [(0, 1), (0, 2), (1, 2), (1, 4), (2, 4), (3, 4)] = true := by
+  decide
+
+/-! ## the clique-graph strategy: Kruskal's spanning tree and the parent assignment
+(`merge/clique_graph.rs`: `kruskal`, `find_neighbors`, `assign_children`,
+`determine_parent_cliques`) -/
+
+/-- [S] `kruskal` on a well-formed edge matrix (`IMat.WFE`) with `0 < num_cliques`: no panic
+(the union-find never exhausts its fuel), the pattern is kept and the values change only at the
+marked positions, where they become `-1`. -/
+theorem kruskal_ok {E : IMat} (h : E.WFE) {numCliques : Nat} (hnc : 0 < numCliques) :
+    ∃ E', kruskal E numCliques = .ok E' ∧ E'.m = E.m ∧ E'.n = E.n ∧ E'.colptr = E.colptr ∧
+      E'.rowval = E.rowval ∧ E'.nzval.size = E.nzval.size ∧
+      ∀ k, E'.nzval.getD k 0 =
+        if k ∈ (kruskalMarked E numCliques).map (·.1) then -1 else E.nzval.getD k 0 :=
+  Clarabel.Chordal.kruskal_ok h hnc
+
+/-- [S] the marked edges are ACYCLIC (each one joins two different connectivity classes of the
+edges marked before it), the final union-find partition is their connectivity, and there are
+`numEdgesFound ≤ max 1 (num_cliques - 1)` of them (`≤ num_cliques - 1` when `2 ≤ num_cliques`;
+with `num_cliques = 1` the loop stops only after the first marked edge). -/
+theorem kruskal_forest {E : IMat} (h : E.WFE) {numCliques : Nat} (hnc : 0 < numCliques) :
+    (∀ (i : Nat) (hi : i < (kruskalTree E numCliques).length),
+      ¬ Conn ((kruskalTree E numCliques).take i)
+        (kruskalTree E numCliques)[i].1 (kruskalTree E numCliques)[i].2) ∧
+    (∀ a b, a < E.n → b < E.n →
+      (Dsu.Same (kruskalRes E numCliques).d a b ↔ Conn (kruskalTree E numCliques) a b)) ∧
+    (kruskalTree E numCliques).length = (kruskalRes E numCliques).found ∧
+    (kruskalTree E numCliques).length ≤ max 1 (numCliques - 1) ∧
+    (2 ≤ numCliques → (kruskalTree E numCliques).length ≤ numCliques - 1) :=
+  Clarabel.Chordal.kruskal_forest h hnc
+
+/-- [S] **spanning tree**: if the `num_cliques` live cliques `Lv` carry all edges of `E` and are
+connected by them, `kruskal` marks exactly `num_cliques - 1` edges of `E`, and they form a
+spanning tree of `Lv` (acyclic and connecting all of `Lv`). -/
+theorem kruskal_spanning {E : IMat} (h : E.WFE) {numCliques : Nat} (hnc : 0 < numCliques)
+    {Lv : List Nat} (hLv : Lv.Nodup) (hlen : Lv.length = numCliques)
+    (hedges : ∀ e ∈ E.edges, e.1 ∈ Lv ∧ e.2 ∈ Lv)
+    (hconn : ∀ u ∈ Lv, ∀ v ∈ Lv, Conn E.edges u v) :
+    (kruskalTree E numCliques).length = numCliques - 1 ∧
+    ForestFrom [] (kruskalTree E numCliques) ∧
+    (∀ e ∈ kruskalTree E numCliques, e ∈ E.edges) ∧
+    (∀ u ∈ Lv, ∀ v ∈ Lv, Conn (kruskalTree E numCliques) u v) :=
+  Clarabel.Chordal.kruskal_spanning h hnc hLv hlen hedges hconn
+
+/-- [S] **`kruskal` + `determine_parent_cliques`** (the core of `clique_tree_from_graph`): under
+the hypotheses of `kruskal_spanning`, for a strictly lower triangular `E` without weight `-1`,
+both functions succeed (`assign_children` does not exhaust its fuel); the parent array orients
+the spanning tree towards the root clique — every live non-root clique gets exactly one parent,
+a tree neighbour; every tree edge is a parent link; every live clique climbs to the root
+(`Oriented`); the root gets `NO_PARENT` when a clique contains `post.last()`; cliques outside
+`Lv` keep their entry; the children lists gain exactly the inverse of the parent array on `Lv`,
+without repetition. (`split_cliques`, proved above, then yields the separators.) -/
+theorem kruskal_determine_parent_cliques {E : IMat} (h : E.WFE) (hl : E.Lower) {numCliques : Nat}
+    (hnc : 0 < numCliques) (hw : ∀ k, k < E.nzval.size → E.nzval.getD k 0 ≠ -1)
+    {Lv : List Nat} (hLv : Lv.Nodup) (hlen : Lv.length = numCliques)
+    (hLlt : ∀ v ∈ Lv, v < E.n)
+    (hedges : ∀ e ∈ E.edges, e.1 ∈ Lv ∧ e.2 ∈ Lv)
+    (hconn : ∀ u ∈ Lv, ∀ v ∈ Lv, Conn E.edges u v)
+    {par0 : Array Nat} {ch0 cliques : Array VSet} {post : Array Nat} {v0 : Nat}
+    (hp : par0.size = E.n) (hc : ch0.size = E.n) (hpost : post.back? = some v0)
+    (hroot : dpcRoot cliques v0 ∈ Lv)
+    (hdead : ∀ v ∈ Lv, ∀ w ∈ Lv, par0.getD w 0 ≠ v) (hnp : ∀ v ∈ Lv, v ≠ noParent)
+    (hch0 : ∀ c, c < E.n → (ch0.getD c #[]).toList.Nodup) :
+    ∃ E' par' ch', kruskal E numCliques = .ok E' ∧
+      determineParentCliques par0 ch0 cliques post E' = .ok (par', ch') ∧
+      par'.size = E.n ∧ ch'.size = E.n ∧
+      (kruskalTree E numCliques).length = numCliques - 1 ∧
+      Oriented (kruskalTree E numCliques) Lv [dpcRoot cliques v0] (fun v => par'.getD v 0) ∧
+      par'.getD (dpcRoot cliques v0) 0 =
+        (if (cliques.findIdx? (fun clique => clique.contains v0)).isSome then noParent
+         else par0.getD (dpcRoot cliques v0) 0) ∧
+      (∀ v, v ∉ Lv → par'.getD v 0 = par0.getD v 0) ∧
+      (∀ c, c < E.n → ∀ w, w ∈ (ch'.getD c #[]).toList ↔
+        (w ∈ (ch0.getD c #[]).toList ∨
+          (w ∈ Lv ∧ w ≠ dpcRoot cliques v0 ∧ par'.getD w 0 = c))) ∧
+      (∀ c, c < E.n → (ch'.getD c #[]).toList.Nodup) :=
+  kruskal_determineParentCliques h hl hnc hw hLv hlen hLlt hedges hconn hp hc hpost hroot hdead
+    hnp hch0
+
+/-- non-vacuity of the Kruskal theorems: the weighted triangle on the cliques `0,1,2` (clique `3`
+dead): `kruskal` marks the two heaviest edges, which span `{0,1,2}` -/
+example : KrEx.tri.WFE ∧ kruskalTree KrEx.tri 3 = [(1, 0), (2, 0)] ∧
+    (kruskalTree KrEx.tri 3).length = 3 - 1 := by
+  refine ⟨KrEx.tri_wfe, KrEx.tri_tree, ?_⟩
+  rw [KrEx.tri_tree]; rfl
+
+/-!
+Not carried by a theorem (round 3): in the clique-graph strategy the construction of the
+reduced clique graph and its weights (`compute_reduced_clique_graph`, `compute_weights`,
+`new_from_triplets`), the merge loop of that strategy (`traverse`/`ispermissible`/`evaluate`/
+`update_strategy`) and the facts that link them to the hypotheses of
+`kruskal_determine_parent_cliques` (`IMat.WFE`/`IMat.Lower` of the edge matrix, no weight `-1`
+after `clique_intersections`, connectivity of the live cliques in the merged graph, the root
+clique live) — they are modelled, compared exactly with the code, and judged by the validity
+oracle and by the machine-checked `validCliqueTreeB` on the model's output.  The AMD ordering and
+QDLDL's symbolic factorisation are inputs (the hypothesis `LPat.Filled` is evaluated on them by
+the driver on every run).
+-/
 
 end Clarabel.C17
